@@ -64,6 +64,22 @@ def make_tree(rng, root, opts):
         with open(os.path.join(root, rel), 'wb') as f:
             f.write(data)
         desc[rel] = ('file', data)
+    if opts.get('dups'):
+        # duplicate detection works on content: files of one size that agree in their last block(s)
+        # and differ earlier must stay different files
+        tail = random.Random(11).randbytes(40000)
+        for k in range(rng.choice([2, 3])):
+            parent = rng.choice(dirs)
+            rel = (parent + '/' if parent else '') + 'neardup%d.bin' % k
+            if rel in desc:
+                continue
+            n = rng.choice([32768, 40000, 65536, 70001])
+            data = random.Random(100 + k).randbytes(rng.choice([1, 5000, 32768])) 
+            data = (data + tail)[:n] if len(data) < n else data[:n]
+            data = data[:len(data) - min(len(data), 7000)] + tail[-min(len(data), 7000):]
+            with open(os.path.join(root, rel), 'wb') as f:
+                f.write(data)
+            desc[rel] = ('file', data)
     if opts.get('deep'):
         # deep nesting (only with Rock Ridge: plain ISO9660 stops at eight levels): a chain of
         # directories to depth 8..11 with files on the way, and siblings at the relocation depth
